@@ -113,7 +113,6 @@ open Jedi.Gen.AsmX86
 /-! ## symbolic execution, cut into pieces -/
 
 set_option maxHeartbeats 1600000 in
-set_option maxRecDepth 100000 in
 theorem montx_part0 (s : State) (pr pt pp inv : Word)
     (hr : Buf s pr 6 true) (ht : Buf s pt 12 false) (hp : Buf s pp 6 false)
     (hrp : X86.Disjoint pr 6 pp 6) (hstk : Stack s 5)
@@ -155,7 +154,6 @@ theorem montx_part0 (s : State) (pr pt pp inv : Word)
   x86_sym [hst, hpc, hdi, hsi, hdx, hcx, sub8x3_toNat, sub8x4_toNat, sub8x5_toNat, mulLo_fold, mulHi_fold, logic, BitVec.xor_self, ← hp0, ← hp1, ← hp2, ← hp3, ← hp4, ← hp5, ← hx0, ← hx1, ← hx2, ← hx3, ← hx4, ← hx5, ← hx6, ← hm15l, ← hm15h, ← hm16l, ← hm16h, ← ht17, ← hm18l, ← hm18h, ← ht19, ← ht20, ← hm21l, ← hm21h, ← ht22, ← ht23, ← hm24l, ← hm24h, ← ht25, ← ht26, ← hm27l, ← hm27h, ← ht28, ← ht29, ← hm30l, ← hm30h, ← ht31, ← ht32, ← ht33, ← ht34, ← hq35, ← ht36]
 
 set_option maxHeartbeats 1600000 in
-set_option maxRecDepth 100000 in
 theorem montx_part1 (s : State) (pr pt pp inv : Word)
     (hr : Buf s pr 6 true) (ht : Buf s pt 12 false) (hp : Buf s pp 6 false)
     (hrp : X86.Disjoint pr 6 pp 6) (hstk : Stack s 5)
@@ -194,7 +192,6 @@ theorem montx_part1 (s : State) (pr pt pp inv : Word)
   x86_sym [sub8x3_toNat, sub8x4_toNat, sub8x5_toNat, mulLo_fold, mulHi_fold, logic, BitVec.xor_self, ← hp0, ← hp1, ← hp2, ← hp3, ← hp4, ← hp5, ← hx7, ← hm38l, ← hm38h, ← hm39l, ← hm39h, ← ht40, ← hm41l, ← hm41h, ← ht42, ← ht43, ← hm44l, ← hm44h, ← ht45, ← ht46, ← hm47l, ← hm47h, ← ht48, ← ht49, ← hm50l, ← hm50h, ← ht51, ← ht52, ← hm53l, ← hm53h, ← ht54, ← ht55, ← ht56, ← ht57, ← hq58, ← ht59]
 
 set_option maxHeartbeats 1600000 in
-set_option maxRecDepth 100000 in
 theorem montx_part2 (s : State) (pr pt pp inv : Word)
     (hr : Buf s pr 6 true) (ht : Buf s pt 12 false) (hp : Buf s pp 6 false)
     (hrp : X86.Disjoint pr 6 pp 6) (hstk : Stack s 5)
@@ -233,7 +230,6 @@ theorem montx_part2 (s : State) (pr pt pp inv : Word)
   x86_sym [sub8x3_toNat, sub8x4_toNat, sub8x5_toNat, mulLo_fold, mulHi_fold, logic, BitVec.xor_self, ← hp0, ← hp1, ← hp2, ← hp3, ← hp4, ← hp5, ← hx8, ← hm61l, ← hm61h, ← hm62l, ← hm62h, ← ht63, ← hm64l, ← hm64h, ← ht65, ← ht66, ← hm67l, ← hm67h, ← ht68, ← ht69, ← hm70l, ← hm70h, ← ht71, ← ht72, ← hm73l, ← hm73h, ← ht74, ← ht75, ← hm76l, ← hm76h, ← ht77, ← ht78, ← ht79, ← ht80, ← hq81, ← ht82]
 
 set_option maxHeartbeats 1600000 in
-set_option maxRecDepth 100000 in
 theorem montx_part3 (s : State) (pr pt pp inv : Word)
     (hr : Buf s pr 6 true) (ht : Buf s pt 12 false) (hp : Buf s pp 6 false)
     (hrp : X86.Disjoint pr 6 pp 6) (hstk : Stack s 5)
@@ -273,7 +269,6 @@ theorem montx_part3 (s : State) (pr pt pp inv : Word)
   x86_sym [sub8x3_toNat, sub8x4_toNat, sub8x5_toNat, mulLo_fold, mulHi_fold, logic, BitVec.xor_self, ← hp0, ← hp1, ← hp2, ← hp3, ← hp4, ← hp5, ← hx9, ← hm84l, ← hm84h, ← hm85l, ← hm85h, ← ht86, ← hm87l, ← hm87h, ← ht88, ← ht89, ← hm90l, ← hm90h, ← ht91, ← ht92, ← hm93l, ← hm93h, ← ht94, ← ht95, ← hm96l, ← hm96h, ← ht97, ← ht98, ← hm99l, ← hm99h, ← ht100, ← ht101, ← ht102, ← ht103, ← hq104, ← ht105]
 
 set_option maxHeartbeats 1600000 in
-set_option maxRecDepth 100000 in
 theorem montx_part4 (s : State) (pr pt pp inv : Word)
     (hr : Buf s pr 6 true) (ht : Buf s pt 12 false) (hp : Buf s pp 6 false)
     (hrp : X86.Disjoint pr 6 pp 6) (hstk : Stack s 5)
@@ -314,7 +309,6 @@ theorem montx_part4 (s : State) (pr pt pp inv : Word)
   x86_sym [sub8x3_toNat, sub8x4_toNat, sub8x5_toNat, mulLo_fold, mulHi_fold, logic, BitVec.xor_self, ← hp0, ← hp1, ← hp2, ← hp3, ← hp4, ← hp5, ← hx10, ← hm107l, ← hm107h, ← hm108l, ← hm108h, ← ht109, ← hm110l, ← hm110h, ← ht111, ← ht112, ← hm113l, ← hm113h, ← ht114, ← ht115, ← hm116l, ← hm116h, ← ht117, ← ht118, ← hm119l, ← hm119h, ← ht120, ← ht121, ← hm122l, ← hm122h, ← ht123, ← ht124, ← ht125, ← ht126, ← hq127, ← ht128]
 
 set_option maxHeartbeats 1600000 in
-set_option maxRecDepth 100000 in
 theorem montx_part5 (s : State) (pr pt pp inv : Word)
     (hr : Buf s pr 6 true) (ht : Buf s pt 12 false) (hp : Buf s pp 6 false)
     (hrp : X86.Disjoint pr 6 pp 6) (hstk : Stack s 5)
@@ -353,7 +347,6 @@ theorem montx_part5 (s : State) (pr pt pp inv : Word)
   x86_sym [sub8x3_toNat, sub8x4_toNat, sub8x5_toNat, mulLo_fold, mulHi_fold, logic, BitVec.xor_self, ← hp0, ← hp1, ← hp2, ← hp3, ← hp4, ← hp5, ← hx11, ← hm130l, ← hm130h, ← hm131l, ← hm131h, ← ht132, ← hm133l, ← hm133h, ← ht134, ← ht135, ← hm136l, ← hm136h, ← ht137, ← ht138, ← hm139l, ← hm139h, ← ht140, ← ht141, ← hm142l, ← hm142h, ← ht143, ← ht144, ← hm145l, ← hm145h, ← ht146, ← ht147, ← ht148, ← ht149]
 
 set_option maxHeartbeats 1600000 in
-set_option maxRecDepth 100000 in
 theorem montx_tail_lt (s : State) (pr pt pp inv : Word)
     (hr : Buf s pr 6 true) (ht : Buf s pt 12 false) (hp : Buf s pp 6 false)
     (hrp : X86.Disjoint pr 6 pp 6) (hstk : Stack s 5)
@@ -380,7 +373,6 @@ theorem montx_tail_lt (s : State) (pr pt pp inv : Word)
   x86_sym [sub8x3_toNat, sub8x4_toNat, sub8x5_toNat, mulLo_fold, mulHi_fold, logic, BitVec.xor_self, ← hp5, ← ht150, hlt]
 
 set_option maxHeartbeats 1600000 in
-set_option maxRecDepth 100000 in
 theorem montx_tail_gt (s : State) (pr pt pp inv : Word)
     (hr : Buf s pr 6 true) (ht : Buf s pt 12 false) (hp : Buf s pp 6 false)
     (hrp : X86.Disjoint pr 6 pp 6) (hstk : Stack s 5)
@@ -412,7 +404,6 @@ theorem montx_tail_gt (s : State) (pr pt pp inv : Word)
   x86_sym [sub8x3_toNat, sub8x4_toNat, sub8x5_toNat, mulLo_fold, mulHi_fold, logic, BitVec.xor_self, ← hp0, ← hp1, ← hp2, ← hp3, ← hp4, ← hp5, ← ht150, ← ht153, ← ht155, ← ht157, ← ht159, ← ht161, ← ht163, hlt, hz]
 
 set_option maxHeartbeats 1600000 in
-set_option maxRecDepth 100000 in
 theorem montx_tail_eqb (s : State) (pr pt pp inv : Word)
     (hr : Buf s pr 6 true) (ht : Buf s pt 12 false) (hp : Buf s pp 6 false)
     (hrp : X86.Disjoint pr 6 pp 6) (hstk : Stack s 5)
@@ -444,7 +435,6 @@ theorem montx_tail_eqb (s : State) (pr pt pp inv : Word)
   x86_sym [sub8x3_toNat, sub8x4_toNat, sub8x5_toNat, mulLo_fold, mulHi_fold, logic, BitVec.xor_self, ← hp0, ← hp1, ← hp2, ← hp3, ← hp4, ← hp5, ← ht150, ← ht172, ← ht174, ← ht176, ← ht178, ← ht180, ← ht182, hlt, hz, hbw]
 
 set_option maxHeartbeats 1600000 in
-set_option maxRecDepth 100000 in
 theorem montx_tail_eqn (s : State) (pr pt pp inv : Word)
     (hr : Buf s pr 6 true) (ht : Buf s pt 12 false) (hp : Buf s pp 6 false)
     (hrp : X86.Disjoint pr 6 pp 6) (hstk : Stack s 5)
@@ -479,7 +469,6 @@ theorem montx_tail_eqn (s : State) (pr pt pp inv : Word)
 /-! ## the theorem -/
 
 set_option maxHeartbeats 1600000 in
-set_option maxRecDepth 100000 in
 /-- `void bmi2_adx_fpbase_384_montgomery_reduce(res, T, p, inv)`: `res < P` and `res·2^384 ≡ T (mod P)` -/
 theorem bmi2_adx_fpbase_384_montgomery_reduce_run (s : State) (pr pt pp inv : Word)
     (hst : s.status = .running) (hpc : s.pc = 0) (hdi : s.rdi = pr) (hsi : s.rsi = pt) (hdx : s.rdx = pp) (hcx : s.rcx = inv)
@@ -736,14 +725,14 @@ theorem bmi2_adx_fpbase_384_montgomery_reduce_run (s : State) (pr pt pp inv : Wo
       refine ⟨_, run_fuel hall rfl 196 (by omega), ?_⟩
       clear hq0 hq1 hq2 hq3 hq4 hq5 hq6 hall
       refine ⟨⟨rfl, ?_, ?_, ?_, ?_, ?_, ?_, ?_, ?_⟩, and_assoc.mp ⟨?_, ?_⟩⟩
-      · first | rfl | simp only
-      · first | rfl | simp only
-      · first | rfl | simp only
-      · first | rfl | simp only
-      · first | rfl | simp only
-      · first | rfl | simp only
-      · first | rfl | simp only
-      · first | rfl | simp only
+      · rfl
+      · rfl
+      · rfl
+      · rfl
+      · rfl
+      · rfl
+      · rfl
+      · rfl
       · x86_mem
         obtain ⟨loR, hloR, hRs, hRb⟩ := val6_split t135.val t138.val t141.val t144.val t147.val t149.val
         obtain ⟨loP, hloP, hPs, hPb⟩ := val6_split p0 p1 p2 p3 p4 p5
@@ -770,14 +759,14 @@ theorem bmi2_adx_fpbase_384_montgomery_reduce_run (s : State) (pr pt pp inv : Wo
         refine ⟨_, run_fuel hall rfl 196 (by omega), ?_⟩
         clear hq0 hq1 hq2 hq3 hq4 hq5 hq6 hall
         refine ⟨⟨rfl, ?_, ?_, ?_, ?_, ?_, ?_, ?_, ?_⟩, and_assoc.mp ⟨?_, ?_⟩⟩
-        · first | rfl | simp only
-        · first | rfl | simp only
-        · first | rfl | simp only
-        · first | rfl | simp only
-        · first | rfl | simp only
-        · first | rfl | simp only
-        · first | rfl | simp only
-        · first | rfl | simp only
+        · rfl
+        · rfl
+        · rfl
+        · rfl
+        · rfl
+        · rfl
+        · rfl
+        · rfl
         · x86_mem
           obtain ⟨loR, hloR, hRs, hRb⟩ := val6_split t135.val t138.val t141.val t144.val t147.val t149.val
           obtain ⟨loP, hloP, hPs, hPb⟩ := val6_split p0 p1 p2 p3 p4 p5
@@ -803,14 +792,14 @@ theorem bmi2_adx_fpbase_384_montgomery_reduce_run (s : State) (pr pt pp inv : Wo
         refine ⟨_, run_fuel hall rfl 196 (by omega), ?_⟩
         clear hq0 hq1 hq2 hq3 hq4 hq5 hq6 hall
         refine ⟨⟨rfl, ?_, ?_, ?_, ?_, ?_, ?_, ?_, ?_⟩, and_assoc.mp ⟨?_, ?_⟩⟩
-        · first | rfl | simp only
-        · first | rfl | simp only
-        · first | rfl | simp only
-        · first | rfl | simp only
-        · first | rfl | simp only
-        · first | rfl | simp only
-        · first | rfl | simp only
-        · first | rfl | simp only
+        · rfl
+        · rfl
+        · rfl
+        · rfl
+        · rfl
+        · rfl
+        · rfl
+        · rfl
         · x86_mem
           obtain ⟨loR, hloR, hRs, hRb⟩ := val6_split t135.val t138.val t141.val t144.val t147.val t149.val
           obtain ⟨loP, hloP, hPs, hPb⟩ := val6_split p0 p1 p2 p3 p4 p5
@@ -836,14 +825,14 @@ theorem bmi2_adx_fpbase_384_montgomery_reduce_run (s : State) (pr pt pp inv : Wo
     refine ⟨_, run_fuel hall rfl 196 (by omega), ?_⟩
     clear hq0 hq1 hq2 hq3 hq4 hq5 hq6 hall
     refine ⟨⟨rfl, ?_, ?_, ?_, ?_, ?_, ?_, ?_, ?_⟩, and_assoc.mp ⟨?_, ?_⟩⟩
-    · first | rfl | simp only
-    · first | rfl | simp only
-    · first | rfl | simp only
-    · first | rfl | simp only
-    · first | rfl | simp only
-    · first | rfl | simp only
-    · first | rfl | simp only
-    · first | rfl | simp only
+    · rfl
+    · rfl
+    · rfl
+    · rfl
+    · rfl
+    · rfl
+    · rfl
+    · rfl
     · x86_mem
       obtain ⟨loR, hloR, hRs, hRb⟩ := val6_split t135.val t138.val t141.val t144.val t147.val t149.val
       obtain ⟨loP, hloP, hPs, hPb⟩ := val6_split p0 p1 p2 p3 p4 p5
